@@ -23,7 +23,10 @@ Property clause → theorem (all kernel-checked, quantified over ALL totals / ep
       `farmer_share_1e12_counterexample`: the literal clause is FALSE of the code in general — the 18-digit rounding of
       `multiplier = alloc/S` is amplified by `s` (alloc 4·10⁶, S 6·10¹³, s 6·10¹¹−2 ⇒ paid 40000 > 39999.99999986…,
       3.3·10⁻¹² above pro rata; the excess is always below one base unit and inside the epoch allocation).
-      `master_share_le_prorata`: the same bound in master-pool mode on min(master, child) values.
+      `master_share_le_prorata`: the same bound in master-pool mode on min(master, child) values;
+      `master_child_share_le_prorata` / `plain_share_le_prorata_from_positions`: the same from the farmed POSITIONS
+      (amount, price, decimals per farmer and pool), weight = min(master value, Σ child-pool values)
+      (`weight_is_min_of_master_and_child_sum`).
 * "the rewards custody account always holds at least the undistributed remainder of all active gauges and external
    reward programs"
     → `custody_ge_remaining` (ledger invariant over create-gauge / create-programme / donations / begin blockers made of
@@ -284,6 +287,63 @@ theorem master_share_le_prorata (conv : Int → Int × Int) (hc : FloatUpper con
       · cases hf
       · injection hf with hf; subst hf
         exact reward_bound conv hc a _ s ha hSpos hs0
+
+/-- positions as the chain produces them: non-negative amounts, positive asset decimals -/
+def FarmersOk (fs : List Farmer) : Prop :=
+  ∀ f ∈ fs, (0 ≤ f.master.amt ∧ 0 < f.master.dec) ∧ ∀ p ∈ f.children, 0 ≤ p.amt ∧ 0 < p.dec
+
+/-- the reward weight of a farmer in a master-pool gauge IS `min(master value, Σ over child pools of the value farmed
+there)` — every child pool counts, none overwrites another -/
+theorem weight_is_min_of_master_and_child_sum (f : Farmer) :
+    weight f = (if posValue f.master ≤ sumL (f.children.map posValue) then posValue f.master
+                else sumL (f.children.map posValue)) := rfl
+
+/-- **Farmer share in master/child configurations, from the farmed positions**: for every set of farmers with
+arbitrary positions in the master pool and in any number of child pools, every price and every allocation, the
+`i`-th payout is within the rounding slack of `alloc · wᵢ / Σ w` where `w = min(master value, Σ child values)`. -/
+theorem master_child_share_le_prorata (conv : Int → Int × Int) (hc : FloatUpper conv) (a : Int) (fs : List Farmer)
+    (rs : List Int) (ha : 0 ≤ a) (hok : FarmersOk fs) (h : sharesFrom conv a true fs = .ok rs)
+    (i : Nat) (f : Farmer) (r : Int) (hf : fs[i]? = some f) (hr : rs[i]? = some r) :
+    r * TWO53 * (2 * Dec.P * Dec.P * sumL (fs.map weight))
+      ≤ (TWO53 + 1) * (2 * a * weight f * Dec.P * Dec.P + (weight f + Dec.P) * sumL (fs.map weight)) := by
+  unfold sharesFrom at h
+  simp only [if_true] at h
+  have hz := zipMin_map fs
+  have hnn : ∀ s ∈ zipMin (fs.map (fun f => posValue f.master)) (fs.map (fun f => childValue f.children)), 0 ≤ s := by
+    rw [hz]
+    intro s hs
+    obtain ⟨g, hg, rfl⟩ := List.mem_map.mp hs
+    exact weight_nonneg g (hok g hg).1 (hok g hg).2
+  have hs : (zipMin (fs.map (fun f => posValue f.master)) (fs.map (fun f => childValue f.children)))[i]? = some (weight f) := by
+    rw [hz]; simp [hf]
+  have := master_share_le_prorata conv hc a _ _ rs ha hnn h i (weight f) r hs hr
+  rw [hz] at this
+  exact this
+
+/-- plain gauges (and master gauges without child pools): weight = value farmed in the gauge's pool -/
+theorem plain_share_le_prorata_from_positions (conv : Int → Int × Int) (hc : FloatUpper conv) (a : Int) (fs : List Farmer)
+    (rs : List Int) (ha : 0 ≤ a) (hok : FarmersOk fs) (h : sharesFrom conv a false fs = .ok rs)
+    (i : Nat) (f : Farmer) (r : Int) (hf : fs[i]? = some f) (hr : rs[i]? = some r) :
+    r * TWO53 * (2 * Dec.P * Dec.P * sumL (fs.map (fun f => posValue f.master)))
+      ≤ (TWO53 + 1) * (2 * a * posValue f.master * Dec.P * Dec.P
+          + (posValue f.master + Dec.P) * sumL (fs.map (fun f => posValue f.master))) := by
+  unfold sharesFrom at h
+  simp only [Bool.false_eq_true, if_false] at h
+  have hnn : ∀ s ∈ fs.map (fun f => posValue f.master), 0 ≤ s := by
+    intro s hs
+    obtain ⟨g, hg, rfl⟩ := List.mem_map.mp hs
+    exact posValue_nonneg _ (hok g hg).1.1 (hok g hg).1.2
+  exact farmer_share_le_prorata conv hc a _ rs ha hnn h i _ r (by simp [hf]) hr
+
+-- A: master 1000, child pools 600 + 400 (sum 1000); B: master 1000, one child pool 1000; C: children only does not
+-- farm the master pool and is not in the list.  Equal weights ⇒ equal halves of the allocation.
+example : sharesFrom f64 1000000000 true
+    [{ master := ⟨500, 1000000, 1000000⟩, children := [⟨300, 1000000, 1000000⟩, ⟨200, 1000000, 1000000⟩] },
+     { master := ⟨500, 1000000, 1000000⟩, children := [⟨500, 1000000, 1000000⟩] }]
+    = .ok [500000000, 500000000] := by decide
+-- if the last child pool overwrote the sum (weight 400 instead of 1000) the second farmer would get 714 285 714
+example : weight { master := ⟨500, 1000000, 1000000⟩, children := [⟨300, 1000000, 1000000⟩, ⟨200, 1000000, 1000000⟩] }
+    = 1000 * Dec.P := by decide
 
 /-! ## Custody -/
 
